@@ -128,6 +128,15 @@ impl Limits {
     }
 }
 
+/// CPU time one call may take before it is reported: a fixed 30 s plus what the configured limit legitimately allows
+/// (up to limit/56 collection items at a generous 20 us each) -- bounded progress in terms of the limit, not a stopwatch
+fn cpu_budget(o: &Map<String, J>, lim: &Limits) -> u64 {
+    match o.get("cpu_budget_ms").and_then(|x| x.as_u64()) {
+        Some(ms) => ms * 1_000_000,
+        None => 30_000_000_000u64 + (lim.l as u64 / 56).saturating_mul(20_000),
+    }
+}
+
 pub fn fuzz_decode(ctx: &Ctx, o: &Map<String, J>) -> Result<J, OpErr> {
     let schema = ctx.schema(o.get("sid").and_then(|x| x.as_str()).ok_or("sid")?)?;
     let lim = Limits {
@@ -147,7 +156,7 @@ pub fn fuzz_decode(ctx: &Ctx, o: &Map<String, J>) -> Result<J, OpErr> {
     let names: HashMap<Name, &Schema> = rs.get_names().clone();
     let reader = GenericDatumReader::builder(schema).build()?;
     let writer = GenericDatumWriter::builder(schema).validate(false).build()?;
-    let cpu_budget_ns: u64 = o.get("cpu_budget_ms").and_then(|x| x.as_u64()).unwrap_or(30_000) * 1_000_000;
+    let cpu_budget_ns: u64 = cpu_budget(o, &lim);
 
     let mut agg = Agg::new();
     anyvalue::set_discard(true);
@@ -484,7 +493,7 @@ pub fn fuzz_container(o: &Map<String, J>) -> Result<J, OpErr> {
         codec_workset: 16 << 20,
     };
     let heavy = o.get("heavy").and_then(|x| x.as_bool()).unwrap_or(false);
-    let cpu_budget_ns: u64 = o.get("cpu_budget_ms").and_then(|x| x.as_u64()).unwrap_or(30_000) * 1_000_000;
+    let cpu_budget_ns: u64 = cpu_budget(o, &lim);
     let mutate = o.get("mutate").and_then(|x| x.as_bool()).unwrap_or(true);
     let mut agg = Agg::new();
     let mut stats = (0usize, 0u64);
@@ -547,7 +556,7 @@ pub fn fuzz_codec(o: &Map<String, J>) -> Result<J, OpErr> {
         l: o.get("limit").and_then(|x| x.as_u64()).ok_or("limit")? as usize,
         codec_workset: 16 << 20,
     };
-    let cpu_budget_ns: u64 = o.get("cpu_budget_ms").and_then(|x| x.as_u64()).unwrap_or(30_000) * 1_000_000;
+    let cpu_budget_ns: u64 = cpu_budget(o, &lim);
     let codec = crate::exec::codec_from(o.get("codec"))?;
     let cname = o.get("codec").map(|c| c.get("name").and_then(|x| x.as_str()).unwrap_or_else(|| c.as_str().unwrap_or("null")).to_string()).unwrap_or_default();
     let mut rng = Rng(o.get("seed").and_then(|x| x.as_u64()).unwrap_or(1) | 1);
